@@ -100,6 +100,7 @@ class Lits(object):
         raise Exception("expr? " + repr(e))
 
     def stmts(self, l, prefix=None):
+        l = [s for s in l if s[0] != "solve_order"]      # ordering declarations are not constraints
         if prefix is not None:
             old, self.prefix = self.prefix, tuple(prefix)
             try:
@@ -603,19 +604,35 @@ def py_bound_out_of_type(sc, root_cls, stmts_with_prefix, values_by_path):
         return {"Add": a + b, "Sub": a - b, "Mul": a * b, "And": a & b, "Or": a | b, "Xor": a ^ b,
                 "Sll": a << b if 0 <= b < 4096 else 0, "Srl": a >> b if 0 <= b < 4096 else 0}.get(op, 0)
 
+    def repr_ok(v, W, sg):
+        lo, hi = (-(1 << (W - 1)), (1 << (W - 1)) - 1) if sg else (0, (1 << W) - 1)
+        return lo <= v <= hi
+
+    def mismatch(c, o, prefix):
+        """constant side c compared with non-constant side o: does conversion to the comparison type change an integer value?"""
+        (wc, sc_), (wo, so) = typ(c, prefix), typ(o, prefix)
+        W, sg = max(wc, wo), sc_ and so
+        if not repr_ok(pv(c, prefix), W, sg):
+            return True
+        if so and not sg:
+            return True        # a signed operand in an unsigned comparison: its negative values are re-read as large positive
+        return False
+
     for s, prefix in stmts_with_prefix:
-        if s[0] != "expr" or s[1][0] != "bin" or s[1][1] not in MIRROR:
+        if s[0] != "expr":
             continue
-        l, r = s[1][2], s[1][3]
-        for c, o in ((l, r), (r, l)):
+        e = s[1]
+        pairs = []
+        if e[0] == "bin" and e[1] in MIRROR:
+            pairs = [(e[2], e[3]), (e[3], e[2])]
+        elif e[0] in ("in", "notin"):
+            for it in e[2]:
+                for x in it:
+                    pairs.append((x, e[1]))
+        for c, o in pairs:
             try:
-                if is_const(c, prefix) and not is_const(o, prefix):
-                    (wl, sl), (wr, sr) = typ(l, prefix), typ(r, prefix)
-                    W, sg = max(wl, wr), sl and sr
-                    v = pv(c, prefix)
-                    lo, hi = (-(1 << (W - 1)), (1 << (W - 1)) - 1) if sg else (0, (1 << W) - 1)
-                    if not (lo <= v <= hi):
-                        return True
+                if is_const(c, prefix) and not is_const(o, prefix) and mismatch(c, o, prefix):
+                    return True
             except ZeroDivisionError:
                 pass
     return False
